@@ -18,7 +18,11 @@ Unshelving onto the unchanged result restores file ids, names, kinds, bytes,
 exec bits, symlink targets, unversioned files and iter_changes exactly, with no
 conflicts, and removes the shelf.  Shelf ids: all sequences of
 shelve/unshelve/keep/delete over three independent changes up to a length
-against a set model (new id unused, shelves persist across reopen until deleted).
+against a set model (new id unused, shelves persist across reopen until deleted);
+and, starting from 9, 10 and 11 live shelves, all sequences over {shelve, unshelve
+without id, delete oldest} up to a length: ids unique and above all live ids when
+assigned, active_shelves() numeric ascending, last_shelf() the newest, every shelf
+still holds its own change, unshelving everything restores every change.
 """
 import itertools
 import os
@@ -803,6 +807,208 @@ def id_sequences(maxlen):
     return out
 
 
+# ---- many live shelves: the 9 -> 10 -> 11 -> 12 boundary ---------------------------------------------
+
+NFILES = 14
+
+
+class BWorld:
+    """A tree with NFILES one-line files, all modified; snapshots with 9, 10 and 11 pre-made shelves."""
+
+    def __init__(self):
+        from mc import boot
+        from mc import wt as mwt
+        self.root = boot.scratch("c15b")
+        self.path = os.path.join(self.root, "t")
+        tree = mwt.make_tree("bzr", self.path)
+        tree.set_root_id(W.ROOT_ID)
+        names = [self.fname(i) for i in range(NFILES)]
+        for n in names:
+            with open(os.path.join(self.path, n), "wb") as f:
+                f.write(b"base %s\n" % n.encode())
+        tree.add(names, ids=[n.encode() + b"-id" for n in names])
+        tree.commit("base", rev_id=b"r1", timestamp=1e9, timezone=0, committer="C <c@example.com>")
+        for n in names:
+            with open(os.path.join(self.path, n), "wb") as f:
+                f.write(b"changed %s\n" % n.encode())
+        self.snaps = {}
+        for n in range(0, 12):
+            if n in (9, 10, 11):
+                d = os.path.join(self.root, "pre%d" % n)
+                W.copytree(self.path, d)
+                self.snaps[n] = d
+            sid = self.shelve(n)
+            if sid != n + 1:
+                # the pre-made shelves themselves are part of the check (reported by the caller)
+                self.premade_error = (n, sid)
+                break
+        else:
+            self.premade_error = None
+
+    @staticmethod
+    def fname(i):
+        return "f%02d" % i
+
+    def open(self):
+        from breezy.workingtree import WorkingTree
+        return WorkingTree.open(self.path)
+
+    def restore(self, n):
+        W.copytree(self.snaps[n], self.path)
+
+    def shelve(self, i):
+        """Shelve the change of file i (real ShelfCreator + ShelfManager.shelve_changes)."""
+        from breezy import shelf
+        wt = self.open()
+        with wt.lock_tree_write():
+            creator = shelf.ShelfCreator(wt, wt.basis_tree(), [self.fname(i)])
+            try:
+                if not creator.shelve_all():
+                    raise HarnessError("nothing shelvable for file %d" % i)
+                return wt.get_shelf_manager().shelve_changes(creator, "shelf of %s" % self.fname(i))
+            finally:
+                creator.finalize()
+
+    def pending(self):
+        out = set()
+        for i in range(NFILES):
+            with open(os.path.join(self.path, self.fname(i)), "rb") as f:
+                data = f.read()
+            if data == b"changed %s\n" % self.fname(i).encode():
+                out.add(i)
+            elif data != b"base %s\n" % self.fname(i).encode():
+                out.add(("garbled", i))
+        return out
+
+
+_BW = None
+
+
+def bworld():
+    global _BW
+    if _BW is None or _BW.pid != os.getpid():
+        _BW = BWorld()
+        _BW.pid = os.getpid()
+    return _BW
+
+
+BOUNDARY_EVENTS = ("shelve", "unshelve-last", "delete-first")
+
+
+def boundary_check(acc, w, model, tree, case, what):
+    """Observation through fresh objects against the set model; returns False after a violation."""
+    wt = w.open()
+    mgr = wt.get_shelf_manager()
+    act = mgr.active_shelves()
+    if act != sorted(model):
+        kind = "not-ascending" if sorted(act) == sorted(model) else "differ-from-model"
+        acc.violation("many-shelves:active_shelves-%s" % kind, dict(case, got=act, expected=sorted(model), after=what))
+        return False
+    if mgr.last_shelf() != (max(model) if model else None):
+        acc.violation("many-shelves:last_shelf-not-newest", dict(case, got=mgr.last_shelf(), expected=max(model), after=what))
+        return False
+    for sid, i in sorted(model.items()):
+        md = mgr.get_metadata(sid)
+        if md.get(b"message") != "shelf of %s" % w.fname(i):
+            acc.violation("many-shelves:shelf-holds-another-change", dict(case, shelf_id=sid, expected=w.fname(i),
+                                                                          metadata=repr(md), after=what))
+            return False
+    if w.pending() != tree:
+        acc.violation("many-shelves:tree-changes-differ-from-model", dict(case, got=sorted(map(str, w.pending())),
+                                                                          expected=sorted(tree), after=what))
+        return False
+    return True
+
+
+def _boundary_work(chunk):
+    from breezy import shelf_ui
+    acc = par.Acc()
+    w = bworld()
+    if w.premade_error is not None:
+        acc.n += 1
+        acc.violation("many-shelves:new-shelf-id-not-next", {"premade_shelves": w.premade_error[0], "got_id": w.premade_error[1]})
+        return acc
+    for n, seq in chunk:
+        w.restore(n)
+        model = {i + 1: i for i in range(n)}        # shelf id -> file index
+        tree = set(range(n, NFILES))
+        case = {"premade_shelves": n, "sequence": list(seq)}
+        ok = boundary_check(acc, w, model, tree, case, "start")
+        for step, ev in enumerate(seq):
+            if not ok:
+                break
+            acc.n += 1
+            try:
+                if ev == "shelve":
+                    i = min(tree)
+                    sid = w.shelve(i)
+                    if sid in model:
+                        acc.violation("many-shelves:new-shelf-reuses-active-id", dict(case, step=step, shelf_id=sid,
+                                                                                      active=sorted(model)))
+                        ok = False
+                        break
+                    if model and sid <= max(model):
+                        acc.violation("many-shelves:new-shelf-id-not-above-active-ids", dict(case, step=step, shelf_id=sid))
+                        ok = False
+                        break
+                    model[sid] = i
+                    tree.discard(i)
+                elif ev == "unshelve-last":
+                    if not model:
+                        break
+                    wt = w.open()
+                    mgr = wt.get_shelf_manager()
+                    sid = mgr.last_shelf()            # what 'unshelve' without an id uses
+                    shelf_ui.Unshelver(wt, mgr, sid, apply_changes=True, delete_shelf=True).run()
+                    exp = max(model)
+                    if sid != exp:
+                        acc.violation("many-shelves:unshelve-without-id-not-newest", dict(case, step=step, got=sid, expected=exp))
+                        ok = False
+                        break
+                    tree.add(model.pop(sid))
+                elif ev == "delete-first":
+                    if not model:
+                        break
+                    sid = min(model)
+                    w.open().get_shelf_manager().delete_shelf(sid)
+                    model.pop(sid)
+            except HarnessError:
+                raise
+            except Exception as e:  # noqa
+                acc.violation("many-shelves:%s:%s:%s" % (ev, type(e).__name__, _frame(e)), dict(case, step=step, error=repr(e)[:200]))
+                ok = False
+                break
+            ok = boundary_check(acc, w, model, tree, case, "%d:%s" % (step, ev))
+        if not ok:
+            continue
+        # unshelving everything (newest first) restores every change that was not deleted
+        lost = set()
+        try:
+            for sid in sorted(model, reverse=True):
+                wt = w.open()
+                shelf_ui.Unshelver(wt, wt.get_shelf_manager(), sid, apply_changes=True, delete_shelf=True).run()
+                tree.add(model[sid])
+        except Exception as e:  # noqa
+            acc.violation("many-shelves:unshelve-all:%s:%s" % (type(e).__name__, _frame(e)), dict(case, error=repr(e)[:200]))
+            continue
+        if w.pending() != tree or w.open().get_shelf_manager().active_shelves() != []:
+            acc.violation("many-shelves:unshelve-all-does-not-restore-every-change",
+                          dict(case, got=sorted(map(str, w.pending())), expected=sorted(tree)))
+            continue
+        acc.nt(("many", n, seq))
+        acc.outcomes.add(("many-shelves", n, len(seq)))
+    return acc
+
+
+def boundary_sequences(depth):
+    out = []
+    for n in (9, 10, 11):
+        for k in range(0, depth + 1):
+            for seq in itertools.product(BOUNDARY_EVENTS, repeat=k):
+                out.append((n, seq))
+    return out
+
+
 # ---- driver --------------------------------------------------------------------------------------------
 
 def run(ctx):
@@ -813,11 +1019,13 @@ def run(ctx):
     acc2 = par.merge(par.pmap(_state_work, tstates, seed=ctx.seed, chunks_per_job=4))
     seqs = id_sequences(ctx.q(3, 5))
     acc3 = par.merge(par.pmap(_ids_work, seqs, seed=ctx.seed))
+    bseqs = boundary_sequences(ctx.q(3, 4))
+    acc4 = par.merge(par.pmap(_boundary_work, bseqs, seed=ctx.seed))
     a1 = _state_work(states[3:5])
     a2 = _state_work(states[3:5])
     if (a1.n, sorted(map(repr, a1.outcomes)), a1.violations) != (a2.n, sorted(map(repr, a2.outcomes)), a2.violations):
         raise HarnessError("non-deterministic shelve results")
-    total = par.merge([acc1, acc2, acc3])
+    total = par.merge([acc1, acc2, acc3, acc4])
     best = {}
     for sig, d in total.violations:
         k = (len(d.get("ops", d.get("sequence", []))), sum(1 for a in d.get("answers", []) if a), len(repr(d)))
@@ -846,6 +1054,9 @@ def run(ctx):
         "shelf_file_left_by_refused_shelve": total.counters.get("shelf_file_left_by_refused_shelve", 0),
         "id_sequences": len(seqs),
         "id_operations": acc3.n,
+        "many_shelves_sequences": len(bseqs),
+        "many_shelves_operations": acc4.n,
+        "many_shelves_start_counts": [9, 10, 11],
         "distinct_outcomes": len(total.outcomes),
         "samples": acc1.samples[:2] + acc2.samples[:1],
         "exhaustive": True,
@@ -854,6 +1065,11 @@ def run(ctx):
 
 def replay(ctx, data):
     d = data["first"]
+    if "premade_shelves" in d:
+        a = _boundary_work([(d["premade_shelves"], tuple(d.get("sequence", ())))])
+        for sig, det in a.violations:
+            print("  ", sig, det)
+        return not a.violations
     if "sequence" in d:
         a = _ids_work([tuple(tuple(e) for e in d["sequence"])])
         for sig, det in a.violations:
